@@ -742,15 +742,14 @@ def dag_plan(k, quick):
             for v in VARIANTS:
                 rows.append((kinds, v, "all", 2 if simple and v in ("whole", "mixed") else 0, v in ("whole", "attr+fn")))
         for names in PREFIX_NAMES:
-            rows += [(kinds, "whole", "all", 0, True, names, "p") for kinds in gs + ["AAA"]]
-            rows += [(kinds, "attr+fn", "all", 0, False, names, "p") for kinds in ("GSG", "SGS")]
+            rows += [(kinds, "whole", "all", -1, True, names, "p") for kinds in ("GGG", "GSG", "SGS", "AAA")]
+            rows += [("GSG", "attr+fn", "all", -1, False, names, "p")]
         for kinds in ("SSS", "GSG", "SGS", "ASA"):
-            rows += [(kinds, v, "all", -1, False, "plain", "d") for v in VALUE_VARIANTS]
+            rows += [(kinds, v, "few", -1, False, "plain", "d") for v in VALUE_VARIANTS]
     else:  # k == 4, thorough only
         rows += [("GGGG", "whole", "all", 0, True), ("GGGG", "attr+fn", "all", -1, True), ("GGGG", "multi", "all", -1, False)]
         rows += [("GSGS", "whole", "all", -1, True), ("SGAG", "mixed", "few", -1, False), ("SSSS", "mixed", "few", -1, False)]
-        rows += [("GGGG", "whole", "all", -1, False, "prefix", "p"), ("GSGS", "attr+fn", "few", -1, False, "dotted", "p")]
-        rows += [("SGSG", "attr:n", "few", -1, False, "plain", "d"), ("SSSS", "multi:n", "few", -1, False, "plain", "d")]
+        rows += [("GGGG", "whole", "two", -1, False, "prefix", "p"), ("SGSG", "attr:n", "two", -1, False, "plain", "d")]
     return rows
 
 
@@ -775,7 +774,7 @@ def dag_cases(quick):
                     continue
                 orders = (link_orders(links, max(level, 0)) if links else [[]])[: 1 if level < 0 else None]
                 if links:
-                    for decl in {"all": decls, "few": few, "first": decls[:1]}[decl_mode]:
+                    for decl in {"all": decls, "few": few, "two": few[:2], "first": decls[:1]}[decl_mode]:
                         for lo in orders:
                             yield {"layer": "dag", "kinds": kinds, "decl": decl, "links": lo, **more}
                 # every single extra link that closes a cycle (self-loops included).  The declaration order cannot
@@ -835,8 +834,8 @@ def hier_cases(quick):
     else:
         plan = [("whole", (1, 2, 3), ("GG", "SG", "GS", "SS"), 1), ("whole", (4, 5, 6), ("GG", "SG"), 0)]
         plan += [("attr+fn", (1, 2, 3), ("GG", "SG"), 1), ("attr+fn", (4, 5, 6), ("GG",), 0), ("attr", (1, 2, 3), ("GG",), 0)]
-        plan += [("whole", (1, 2, 3), ("GG", "SG"), 0, "prefix", "p", decls), ("attr+fn", (1, 2), ("GS",), 0, "prefix", "p", decls)]
-        plan += [(v, (1, 2), ("SS", "GS"), -1, "plain", "d", decls) for v in ("attr:n", "attr:n+fn", "attr:z", "attr:o")]
+        plan += [("whole", (1, 2, 3), ("GG",), -1, "prefix", "p", decls)]
+        plan += [(v, (1, 2), ("SS",), -1, "plain", "d", decls) for v in ("attr:n", "attr:n+fn")]
     for row in plan:
         variant, sizes, src_list, level, names, par, decl_list = (row + ("plain", "p", decls))[:7]
         more = {} if names == "plain" else {"names": names}
@@ -850,14 +849,14 @@ def hier_cases(quick):
     # link sets in which a level is also a source
     up_plan = [("whole", "plain", "p"), ("attr+fn", "plain", "p")]
     # ... with prefix-related names, and with a None / falsy attribute of a level as the source value
-    up_plan += [("attr:n", "plain", "d")] if quick else [("whole", "prefix", "p"), ("attr:n", "plain", "d"), ("attr:n+fn", "plain", "d"), ("attr:f", "plain", "d")]
+    up_plan += [("attr:n", "plain", "d")] if quick else [("whole", "prefix", "p"), ("attr:n", "plain", "d"), ("attr:n+fn", "plain", "d")]
     for variant, names, par in up_plan:
         new = (names, par) != ("plain", "p")
         more = {} if names == "plain" else {"names": names}
         for root_kind in ("G", "S"):
             down, up = hier_links(root_kind, variant, par)
             for links in _subsets(down + up, (1, 2) if quick or new else (1, 2, 3), need=lambda l: l["t"] in ("sa", "sb")):
-                for src_kinds in ("GG",) if quick or variant != "whole" else ("GG", "SG"):
+                for src_kinds in ("GG",) if quick or new or variant != "whole" else ("GG", "SG"):
                     for decl in ((decls[0], decls[5]) if new else some) if quick else decls:
                         for lo in link_orders(links, 0 if quick else 2)[: 1 if new else None]:
                             yield {"layer": "hier", "root": root_kind, "src": src_kinds, "decl": decl, "links": lo, **more}
@@ -885,8 +884,8 @@ def within_cases(quick):
     else:
         plan = [("whole", (1, 2, 3), (("S", "G"), ("A", "G"), ("S", "S")), 2), ("whole", (4,), (("S", "G"),), 0)]
         plan += [("attr+fn", (1, 2, 3), (("S", "G"), ("A", "S")), 0), ("attr", (1, 2), (("S", "G"),), 0)]
-        plan += [("whole", (1, 2, 3), (("S", "G"), ("A", "S")), 0, names, "p") for names in ("prefix", "prefix-rev")]
-        plan += [(v, (1, 2), (("S", "S"), ("A", "G")), 0, "plain", "d") for v in ("attr:n", "attr:n+fn", "attr:z", "attr:l")]
+        plan += [("whole", (1, 2), (("S", "G"), ("A", "S")), 0, names, "p") for names in ("prefix", "prefix-rev")]
+        plan += [(v, (1, 2), (("S", "S"),), -1, "plain", "d") for v in ("attr:n", "attr:n+fn", "attr:z")]
     for row in plan:
         variant, sizes, kind_list, level, names, par = (row + ("plain", "p"))[:6]
         more = {} if names == "plain" else {"names": names}
